@@ -446,3 +446,6 @@ def finish(stats, tier):
         if not stats["outcomes"].get(k):
             out.append("no %s case ran" % k)
     return out
+
+
+RULE += ' Since rounds 10-11 also: same-length rewrite between cached runs (time shifts 1 ms ... 1 s); 1540 equal files under overlapping roots x seven pool sizes.'
